@@ -409,3 +409,52 @@ def replay_export_csv(obligation, model, meta):
     finally:
         shutil.rmtree(out, ignore_errors=True)
     return {'confirmed': False, 'tried': 1}
+
+
+
+def bounded_loader_roundtrip(pack, pid):
+    """bounded native stand-in: a short run written to lst/npz and read back by the plot loader gives, for every variable name, the
+    values the simulation kept in memory (names, column order, time stamps); find()/get_header()/get_values() agree"""
+    from contracts.packutil import native_guard
+    name = '%s/andes/plot.py:TDSData/bounded:file-loader-returns-the-simulated-values-under-the-right-names' % pid
+
+    def go():
+        import contextlib
+        import io
+        import logging
+        import os
+        import shutil
+        import tempfile
+        import numpy as np
+        import andes
+        from andes.plot import TDSData
+        logging.getLogger('andes').setLevel(logging.CRITICAL)
+        out = tempfile.mkdtemp(prefix='verif_load_')
+        try:
+            with contextlib.redirect_stdout(io.StringIO()), contextlib.redirect_stderr(io.StringIO()):
+                ss = andes.load(andes.get_case('kundur/kundur_full.xlsx'), default_config=True, output_path=out)
+                ss.TDS.config.tf = 0.4
+                ss.PFlow.run()
+                ss.TDS.run()
+                ss.TDS.save_output()
+                td = TDSData(full_name=os.path.join(out, 'kundur_full_out'), path=out)
+            t = np.array(ss.dae.ts.t)
+            if not np.array_equal(td.get_values([0])[:, 0], t):
+                return {'what': 'time column', 'expected_first': t[:3].tolist(), 'read_first': td.get_values([0])[:3, 0].tolist()}
+            names = list(ss.dae.x_name) + list(ss.dae.y_name)
+            mem = np.hstack((np.array(ss.dae.ts.x), np.array(ss.dae.ts.y)))
+            for col in list(range(0, len(names), 7)) + [len(names) - 1]:
+                nm = names[col]
+                idx, found = td.find('^' + __import__('re').escape(nm) + '$')
+                if len(idx) != 1 or found != [nm] or td.get_header(idx) != [nm]:
+                    return {'what': 'lookup of %r' % nm, 'find': [idx, found], 'get_header': td.get_header(idx) if idx else None}
+                if not np.array_equal(td.get_values(idx)[:, 0], mem[:, col]):
+                    return {'what': 'values of %r' % nm, 'max_difference': float(np.max(np.abs(td.get_values(idx)[:, 0] - mem[:, col])))}
+            return None
+        finally:
+            shutil.rmtree(out, ignore_errors=True)
+    bad = native_guard(pack, name, go)
+    pack.bounded.append({'function': 'TDSData.load_lst / load_npy_or_csv / find / get_header / get_values', 'counted_as_proved': False,
+                         'kind': 'bounded native (kundur_full, tf=0.4: time column and every 7th variable compared with the in-memory series)'})
+    if bad:
+        pack.violation(name, {'bounded': True, 'inputs': bad, 'native_cmd': 'TDS.run with output; TDSData(<result>); compare with dae.ts'})
